@@ -257,8 +257,10 @@ def _oracle(ctx):
     import skfem as s
     extra = [('tri', [lambda: s.ElementVector(s.ElementTriP2()), s.ElementTriRT1, s.ElementTriRT2, s.ElementTriBDM1, s.ElementTriN1, s.ElementTriN2,
                       s.ElementTriP0, s.ElementTriCR, s.ElementTriP1DG, lambda: s.ElementDG(s.ElementTriP2()), s.ElementTriHHJ0, s.ElementTriHHJ1,
-                      s.ElementTriMorley]),
-             ('tet', [lambda: s.ElementVector(s.ElementTetP1()), s.ElementTetRT0, s.ElementTetN0]),
+                      s.ElementTriMorley, lambda: s.ElementTriP2() * s.ElementTriP1() * s.ElementTriP0(),
+                      lambda: s.ElementVector(s.ElementTriP2()) * s.ElementTriP1() * s.ElementTriP1()]),
+             ('tet', [lambda: s.ElementVector(s.ElementTetP1()), s.ElementTetRT0, s.ElementTetN0,
+                      lambda: s.ElementVector(s.ElementTetP2()) * s.ElementTetP1() * s.ElementTetP0()]),
              ('quad_general', [lambda: s.ElementVector(s.ElementQuad2()), s.ElementQuad0, s.ElementQuadRT0])]
     for kind, efs in extra:
         m, desc = O.make_mesh(kind, rng)
